@@ -114,11 +114,19 @@ type Flow struct {
 
 // StartFlow runs NewConn on the first record (more input may follow later).
 func StartFlow(first []byte, keys []ech.Key) (*Flow, Outcome) {
+	if keys == nil {
+		return StartFlowGroups(first, nil)
+	}
+	return StartFlowGroups(first, [][]ech.Key{keys})
+}
+
+// StartFlowGroups is StartFlow with the keys handed over in several WithKeys options.
+func StartFlowGroups(first []byte, groups [][]ech.Key) (*Flow, Outcome) {
 	tc := tap.New(nil)
 	tc.Feed(first)
 	var opts []ech.Option
-	if keys != nil {
-		opts = append(opts, ech.WithKeys(keys))
+	for _, g := range groups {
+		opts = append(opts, ech.WithKeys(g))
 	}
 	c, err := ech.NewConn(context.Background(), tc, opts...)
 	o := Outcome{Err: err, Class: Class(err), Conn: c, Tap: tc}
